@@ -158,8 +158,9 @@ def check_scan(P, ctx):
     g = P.cfg(fn)
     ctx.fn(fn)
     N = util.Norm(P, fn, inline=False)
+    NX = util.Norm(P, fn, inline=False, expand_locals=True)
     inits = [n for n in g.live() if n['kind'] == 'stmt' and n['expr'] is not None and N.canon(n['expr'])[0] == 'assign' and N.canon(n['expr'])[2][0] == 'local' and
-             N.canon(n['expr'])[3] == ir.canon(('bin', '+', ('param', 'self', 0), ('enum', 'CELLO_NBUILTINS')))]
+             NX.canon(ir.top_nocast(n['expr'])[3]) == ir.canon(('bin', '+', ('param', 'self', 0), ('enum', 'CELLO_NBUILTINS'))) and not n.get('decl')]
     loopc = [n for n in g.live() if n['kind'] == 'cond' and N.canon(n['expr'])[0] == 'arrow' and N.canon(n['expr'])[2] == 'name']
     ok = len(inits) == 2 and len(loopc) == 2
     ctx.check(ok, rule, 'passes', site(fn), 'both passes start at the first declared instance (self + CELLO_NBUILTINS) and run while the triple has a name (the all-NULL triple terminates)')
